@@ -469,18 +469,18 @@ def write_evidence(prop, tier, seed, runs, wall, budget, workers, nviol, known_s
 
 
 EXPECTED_PROBES = {
-    "C01": ["fame-decided-at-distance-3", "fame-decided-at-distance-5", "coin-round-vote-exact-supermajority", "validator-set-change", "async-gossip", "synthetic-split-vote-template", "dagreplay-variant:delay"],
-    "C02": ["validator-set-change", "re-fast-forward", "async-gossip", "late-request-executed"],
+    "C01": ["fame-decided-at-distance-3", "fame-decided-at-distance-5", "coin-round-vote-exact-supermajority", "validator-set-change", "async-gossip", "synthetic-split-vote-template", "dagreplay-variant:delay", "dagreplay-variant:near-early", "dagreplay-variant:near-late", "synthetic-near-miss-history-strong", "synthetic-leave-history", "synthetic-leave-conflict-in-model", "refmodel-cross-checked"],
+    "C02": ["validator-set-change", "re-fast-forward", "async-gossip", "late-request-executed", "joiner-spawned"],
     "C03": ["dagreplay-variant:order", "dagreplay-variant:delay", "dagreplay-variant:subdag", "dagreplay-variant:store", "dagreplay-variant:smallbadger", "dagreplay-variant:batch", "synthetic-dag"],
     "C04": ["c04-order-checked"],
     "C05": ["submit-from-commit-callback", "async-gossip", "node-killed"],
-    "C06": ["c06-liveness-evaluated", "validator-set-change"],
-    "C07": ["c07-admitted", "c07-rejected"],
-    "C08": ["c08-input:raw-bytes", "c08-input:sync", "c08-input:eager", "c08-input:join", "c08-input:ff", "c08-input:syncresp", "c08-input:ffresp"],
+    "C06": ["c06-liveness-evaluated", "validator-set-change", "submit-from-commit-callback"],
+    "C07": ["c07-admitted", "c07-rejected", "c07-attempt-with-valid-membership-payload"],
+    "C08": ["c08-input:raw-bytes", "c08-input:sync", "c08-input:eager", "c08-input:join", "c08-input:ff", "c08-input:syncresp", "c08-input:ffresp", "c08-valid-join-request-copies"],
     "C09": ["c09-anchor-checked", "c09-hostile-signatures:malformed", "c09-hostile-signatures:other-body", "validator-set-change"],
-    "C10": ["c10-history-checked", "c10-quorum-round-checked", "c10-quorum-decided-round-checked", "validator-set-change"],
+    "C10": ["c10-history-checked", "c10-quorum-round-checked", "c10-quorum-decided-round-checked", "c10-fame-decision-checked", "c10-fame-decision-across-set-change-checked", "validator-set-change"],
     "C11": ["shadow-bootstrap", "restart-bootstrap", "crash-inside-insertion", "store-point"],
-    "C12": ["ff-refused", "ff-accepted"],
+    "C12": ["ff-refused", "ff-accepted", "ff-attempt-on-previously-adopted-pair", "ff-attempt:sigs-below-threshold-plus-strangers"],
     "C13": ["fastforward-ok", "re-fast-forward", "c13-ff-history-checked"],
     "C14": ["ff-attempt:forged-validator-set"],
     "C15": ["c15-wire-roundtrip", "c15-block-json", "c15-frame-json", "c15-db-events-reloaded"],
